@@ -1120,6 +1120,10 @@ pub struct NameTree<T> {
 }
 impl<T: Object+DataSize> NameTree<T> {
     pub fn walk(&self, r: &impl Resolve, callback: &mut dyn FnMut(&PdfString, &T)) -> Result<(), PdfError> {
+        self.walk_visited(r, callback, &mut Vec::new())
+    }
+    /// `visited` holds the nodes on and before the current path: a tree never reaches a node twice
+    fn walk_visited(&self, r: &impl Resolve, callback: &mut dyn FnMut(&PdfString, &T), visited: &mut Vec<PlainRef>) -> Result<(), PdfError> {
         match self.node {
             NameTreeNode::Leaf(ref items) => {
                 for (name, val) in items {
@@ -1128,8 +1132,12 @@ impl<T: Object+DataSize> NameTree<T> {
             }
             NameTreeNode::Intermediate(ref items) => {
                 for &tree_ref in items {
+                    if visited.contains(&tree_ref.get_inner()) {
+                        bail!("name tree node {:?} is reachable twice", tree_ref);
+                    }
+                    visited.push(tree_ref.get_inner());
                     let tree = r.get(tree_ref)?;
-                    tree.walk(r, callback)?;
+                    tree.walk_visited(r, callback, visited)?;
                 }
             }
         }
@@ -1286,6 +1294,10 @@ impl<T: ObjectWrite> ObjectWrite for NumberTree<T> {
 }
 impl<T: Object+DataSize> NumberTree<T> {
     pub fn walk(&self, r: &impl Resolve, callback: &mut dyn FnMut(i32, &T)) -> Result<(), PdfError> {
+        self.walk_visited(r, callback, &mut Vec::new())
+    }
+    /// `visited` holds the nodes on and before the current path: a tree never reaches a node twice
+    fn walk_visited(&self, r: &impl Resolve, callback: &mut dyn FnMut(i32, &T), visited: &mut Vec<PlainRef>) -> Result<(), PdfError> {
         match self.node {
             NumberTreeNode::Leaf(ref items) => {
                 for &(idx, ref val) in items {
@@ -1294,8 +1306,12 @@ impl<T: Object+DataSize> NumberTree<T> {
             }
             NumberTreeNode::Intermediate(ref items) => {
                 for &tree_ref in items {
+                    if visited.contains(&tree_ref.get_inner()) {
+                        bail!("number tree node {:?} is reachable twice", tree_ref);
+                    }
+                    visited.push(tree_ref.get_inner());
                     let tree = r.get(tree_ref)?;
-                    tree.walk(r, callback)?;
+                    tree.walk_visited(r, callback, visited)?;
                 }
             }
         }
